@@ -2215,9 +2215,17 @@ TSTree *ts_parser_parse(
       break;
     }
 
+    // Only skip the included range differences that every remaining stack version
+    // has passed; `position` is the position of the version that was advanced last.
+    uint32_t min_position = position;
+    for (StackVersion v = 0, n = ts_stack_version_count(self->stack); v < n; v++) {
+      uint32_t version_position = ts_stack_position(self->stack, v).bytes;
+      if (version_position < min_position) min_position = version_position;
+    }
+
     while (self->included_range_difference_index < self->included_range_differences.size) {
       TSRange *range = array_get(&self->included_range_differences, self->included_range_difference_index);
-      if (range->end_byte <= position) {
+      if (range->end_byte <= min_position) {
         self->included_range_difference_index++;
       } else {
         break;
